@@ -433,4 +433,7 @@ func runC02(r *Run) {
 	})
 	runC02Exec(r)
 	r.Cases(200000, r.N(150, 2000), 0, func(c *Case, rng *Rng) { c02ConcCase(c, rng) })
+	if r.Thorough() {
+		runC02Exhaustive(r)
+	}
 }
